@@ -18,7 +18,14 @@ impl ResultsFormatter for JsonFormatter {
     }
 
     fn format_element(&mut self, name: &str, record: &str, _is_last: bool) -> Option<String> {
-        self.file_map.insert(name.to_owned(), record.to_owned());
+        // a column selected twice is two members: the repeated name is numbered (Name, Name_2, ...)
+        let mut key = name.to_owned();
+        let mut repeat = 1;
+        while self.file_map.contains_key(&key) {
+            repeat += 1;
+            key = format!("{}_{}", name, repeat);
+        }
+        self.file_map.insert(key, record.to_owned());
         None
     }
 
